@@ -34,8 +34,9 @@ class Ctx:
         self.workdir = workdir
         self.instances = []
         self.stats = {'functions_analysed': set(), 'paths': 0, 'obligations': 0, 'discharged': 0, 'loops': 0,
-                      'std_summaries': set(), 'unsummarised': set()}
+                      'std_summaries': set(), 'unsummarised': set(), 'loop_functions_checked': 0}
         self.assumptions = set()
+        self.executed = set()
         self.samples = []
 
     def crate(self, cfg):
@@ -56,6 +57,8 @@ class Ctx:
 
     def absorb(self, ip, fnpath):
         self.stats['functions_analysed'].add(fnpath)
+        self.executed |= set(getattr(ip, 'executed_fns', ()))
+        self.executed.add(fnpath)
         self.stats['paths'] += ip.paths
         self.stats['loops'] += len(ip.loop_info)
         self.stats['std_summaries'] |= set(ip.summaries_used)
@@ -88,3 +91,41 @@ def guarded(ctx, rule, key, f, *a, **kw):
     except Exception as e:  # a crash of the checker is never a pass
         ctx.unanalysable(rule, key, detail={'reason': 'checker exception: %r' % (e,), 'trace': traceback.format_exc()[-1500:]})
     return None
+
+
+def check_early_exits(ctx, modname):
+    """G1 - no unaccounted early exit.  The per-iteration obligations of the loop rules speak about iterations that
+    run to the end of the body and about loops that stop when their own test fails.  A user-written break, continue,
+    return or `?` inside a loop (taken from the HIR, desugared loop tests excluded) is a way to skip work, so each one in
+    a function this module interprets must be listed in exits.EXPECTED with the obligation that accounts for it."""
+    from . import exits
+    pfx = modname[:3].upper()
+    for cfg in ('dev',):
+        cr = ctx.crate(cfg)
+        checked = 0
+        for path in sorted(ctx.executed | set(exits.ALSO.get(modname[:3], []))):
+            if path in exits.SEMANTIC:
+                continue
+            f = cr.fn(path)
+            if f is None and path in exits.ALSO.get(modname[:3], []):
+                ctx.unanalysable(pfx + '.G1', '%s.G1/%s/missing' % (pfx, path), path, None, None, cfg)
+                continue
+            if f is None or not f.jumps:
+                if f is not None and f.loops():
+                    checked += 1
+                continue
+            checked += 1
+            have = {}
+            for j in f.jumps:
+                have[j['kind']] = have.get(j['kind'], 0) + 1
+            want = exits.EXPECTED.get(path, {})
+            extra = {k: n - want.get(k, 0) for k, n in have.items() if n > want.get(k, 0)}
+            ok = not extra
+            ctx.obligation(ok)
+            if ok:
+                ctx.ok(pfx + '.G1', '%s.G1/%s/early-exits-in-loops-accounted' % (pfx, path), path, f.site(), {'early_exits': have}, cfg)
+            else:
+                ctx.violation(pfx + '.G1', '%s.G1/%s/unaccounted-early-exit-in-loop' % (pfx, path), path, f.site(),
+                              {'found': have, 'accounted': want, 'unaccounted': extra, 'lines': [(j['kind'], j['line']) for j in f.jumps],
+                               'why': 'a new break/continue/return inside a loop can skip elements or iterations that the per-iteration rules never see'}, cfg)
+        ctx.stats['loop_functions_checked'] += checked
